@@ -8,6 +8,7 @@ from common import case_line, parse_result
 from gen import medium_run, rand_bounds
 
 LEVEL = "proof"
+LYING = lambda a: "-c" in a        # which command lines of cases.rand_cli the lying-size stdin scenario keeps
 COUNTS = ["c"]        # modes of cases.count_thresholds
 BIG_IO = lambda a: "-c" in a        # which command lines of cases.rand_cli the large-input stream keeps
 CHARS = ["a", " ", "é", "€", "😎", "́", "-", "Z", " ", "中"]
